@@ -990,3 +990,78 @@ Proof.
     rewrite forallb_forall in Hs. apply ssorted_b_sound. apply (Hs (q, l) (d_get_in _ _ _ E)). }
   pose proof (fixed_run_eq_unsimplified p path Ht Hf Hb He Hn Hs' Hnb Hp). lia.
 Qed.
+
+(* ------------------------------------------------------------------ *)
+(* simplify_single_terms: compute_simplified on a leaf's raw legs (sorted, one entry per
+   occurrence) merges repeated indices and drops the fully summed ones -- the tree's leaf rule *)
+Fixpoint pcount (j : nat) (l : plegs) : nat :=
+  match l with [] => 0 | (k, c) :: l' => (if Nat.eqb k j then c else 0) + pcount j l' end.
+Fixpoint nd_from (lo : nat) (l : plegs) : Prop :=
+  match l with [] => True | (k, _) :: l' => lo <= k /\ nd_from k l' end.
+
+Lemma pcount_below lo l j : nd_from lo l -> j < lo -> pcount j l = 0.
+Proof.
+  revert lo. induction l as [|[k c] l IH]; intros lo H Hj; cbn in *; [reflexivity|].
+  destruct H as [H1 H2]. destruct (Nat.eqb_spec k j); [lia|]. apply (IH k H2). lia.
+Qed.
+
+Lemma simplified_from_spec ap l : forall cur cnt, nd_from cur l -> 0 < cnt -> pos l ->
+  let R := simplified_from ap cur cnt l in
+  ssorted R /\ pos R /\ (forall j, In j (lkeys R) -> cur <= j) /\
+  forall j, lget0 j R = (let c := (if Nat.eqb cur j then cnt else 0) + pcount j l in
+                         if Nat.eqb c (papp_of ap j) then 0 else c).
+Proof.
+  induction l as [|[k c] l IH]; intros cur cnt Hnd Hc Hp; cbn zeta.
+  - cbn [simplified_from pcount]. destruct (Nat.eqb_spec cnt (papp_of ap cur)) as [E|E].
+    + split; [constructor|]. split; [intros kv []|]. split; [intros j []|].
+      intros j. change (lget0 j []) with 0. rewrite Nat.add_0_r.
+      destruct (Nat.eqb_spec cur j) as [<-|]; [destruct (Nat.eqb_spec cnt (papp_of ap cur)); [reflexivity|contradiction]|].
+      destruct (0 =? papp_of ap j); reflexivity.
+    + split; [repeat constructor|]. split; [intros kv [<-|[]]; exact Hc|]. split; [intros j [<-|[]]; cbn; lia|].
+      intros j. rewrite Nat.add_0_r. destruct (Nat.eqb_spec cur j) as [<-|Hne].
+      * rewrite pg_eq. destruct (Nat.eqb_spec cnt (papp_of ap cur)); [contradiction|reflexivity].
+      * rewrite (pg_ne cur cnt [] j) by congruence. change (lget0 j []) with 0. destruct (0 =? papp_of ap j); reflexivity.
+  - cbn [nd_from] in Hnd. destruct Hnd as [Hle Hnd].
+    assert (Hpc : 0 < c) by (apply (Hp (k, c)); left; reflexivity).
+    assert (Hp' : pos l) by (intros kv H; apply Hp; right; exact H).
+    cbn [simplified_from pcount]. destruct (Nat.eqb_spec k cur) as [->|Hk].
+    + destruct (IH cur (cnt + c) Hnd ltac:(lia) Hp') as (S & P & K & G). cbn zeta in *.
+      split; [exact S|]. split; [exact P|]. split; [exact K|].
+      intros j. rewrite G. destruct (cur =? j); [|reflexivity]. rewrite Nat.add_assoc. reflexivity.
+    + assert (Hlt : cur < k) by lia.
+      destruct (IH k c Hnd Hpc Hp') as (S & P & K & G). cbn zeta in *.
+      assert (Hcur0 : lget0 cur (simplified_from ap k c l) = 0).
+      { apply lget0_notin. intros H. specialize (K cur H). lia. }
+      assert (Hpc0 : pcount cur l = 0) by (apply (pcount_below k l cur Hnd Hlt)).
+      destruct (Nat.eqb_spec cnt (papp_of ap cur)) as [E|E]; cbn [Datatypes.app].
+      * split; [exact S|]. split; [exact P|]. split; [intros j Hj; specialize (K j Hj); lia|].
+        intros j. rewrite G. destruct (Nat.eqb_spec cur j) as [<-|Hne].
+        -- destruct (Nat.eqb_spec k cur); [lia|]. rewrite Hpc0, !Nat.add_0_r. cbn [Nat.add].
+           repeat match goal with |- context [?a =? ?b] => destruct (Nat.eqb_spec a b) end; try reflexivity; try lia.
+        -- destruct (k =? j); reflexivity.
+      * split; [apply sorted_cons_intro; [exact S|intros j Hj; specialize (K j Hj); lia]|].
+        split; [intros kv [<-|H]; [exact Hc|apply P, H]|]. split; [intros j [<-|Hj]; [cbn; lia|specialize (K j Hj); lia]|].
+        intros j. destruct (Nat.eqb_spec cur j) as [<-|Hne].
+        -- rewrite pg_eq. destruct (Nat.eqb_spec k cur); [lia|]. rewrite Hpc0, !Nat.add_0_r.
+           destruct (Nat.eqb_spec cnt (papp_of ap cur)); [contradiction|reflexivity].
+        -- rewrite (pg_ne cur cnt _ j) by congruence. rewrite G. destruct (k =? j); reflexivity.
+Qed.
+
+Theorem compute_simplified_spec ap l : nd_from 0 l -> pos l ->
+  let R := compute_simplified ap l in
+  ssorted R /\ pos R /\ (forall j, In j (lkeys R) -> 0 < pcount j l) /\
+  forall j, lget0 j R = (if Nat.eqb (pcount j l) (papp_of ap j) then 0 else pcount j l).
+Proof.
+  intros Hnd Hp. cbn zeta. destruct l as [|[k c] l].
+  - cbn [compute_simplified pcount]. split; [constructor|]. split; [intros kv []|]. split; [intros j []|].
+    intros j. change (lget0 j []) with 0. destruct (0 =? papp_of ap j); reflexivity.
+  - cbn [compute_simplified]. cbn [nd_from] in Hnd. destruct Hnd as [_ Hnd].
+    assert (Hc : 0 < c) by (apply (Hp (k, c)); left; reflexivity).
+    assert (Hp' : pos l) by (intros kv H; apply Hp; right; exact H).
+    destruct (simplified_from_spec ap l k c Hnd Hc Hp') as (S & P & K & G). cbn zeta in *.
+    split; [exact S|]. split; [exact P|]. split.
+    + intros j Hj. assert (Hpos : 0 < lget0 j (simplified_from ap k c l)).
+      { apply (wfl_key_pos j _ (conj (ssorted_nodup _ S) P)), Hj. }
+      rewrite G in Hpos. cbn [pcount]. destruct (_ =? papp_of ap j) in Hpos; lia.
+    + intros j. rewrite G. cbn [pcount]. reflexivity.
+Qed.
